@@ -91,29 +91,41 @@ func c09(c *core.Ctx) {
 
 	// C09.flow
 	{
+		svadObj := svad.Object().(*types.Func)
+		verifying := verifyingHelpers(libFns(c, "uasc"), svadObj)
+		vcalls := verifyCallsIn(readChunk, svadObj, verifying)
+		// the function that calls verifyAndDecrypt directly (readChunk, or a private helper of it)
 		var call ssa.CallInstruction
-		for _, cl := range ssax.CallsTo(readChunk, svad.Object().(*types.Func)) {
-			call = cl
+		inner := readChunk
+		for _, g := range withHelpers(readChunk) {
+			for _, cl := range ssax.CallsTo(g, svadObj) {
+				call, inner = cl, g
+			}
 		}
-		if call == nil {
-			c.Ob("C09.flow", fname(readChunk)+"·calls verifyAndDecrypt", c.P.Pos(readChunk.Pos()), false, "readChunk does not call verifyAndDecrypt")
+		if call == nil || len(vcalls) == 0 {
+			c.Ob("C09.flow", fname(readChunk)+"·calls verifyAndDecrypt", c.P.Pos(readChunk.Pos()), false, "readChunk does not call verifyAndDecrypt (directly or through a helper whose nil error implies it succeeded)")
 		} else {
 			for _, ret := range ssax.Returns(readChunk) {
 				if isNilResult(ret, 0) {
 					continue
 				}
-				ok := okEdge(ret, call)
+				ok := false
+				for _, vc := range vcalls {
+					if okEdge(ret, vc) {
+						ok = true
+					}
+				}
 				c.Ob("C09.flow", fname(readChunk)+"·return chunk", pos(c, ret), ok, "returned chunk dominated by verifyAndDecrypt err==nil: "+boolStr(ok))
 			}
 			// m.Data = result#0 store dominating SequenceHeader.Decode(m.Data)
 			data := result(call, 0)
 			var st *ssa.Store
-			for _, a := range ssax.FieldAccesses(readChunk, dataF) {
+			for _, a := range ssax.FieldAccesses(inner, dataF) {
 				if s, ok := a.Use.(*ssa.Store); ok && a.Kind == ssax.Write && denotes(s.Val, data) {
 					st = s
 				}
 			}
-			for _, dc := range ssax.CallsTo(readChunk, seqDecode) {
+			for _, dc := range ssax.CallsTo(inner, seqDecode) {
 				arg := dc.Common().Args[len(dc.Common().Args)-1]
 				ok := false
 				detail := ""
